@@ -26,9 +26,52 @@ fn one_byte_class(x: u8) -> ClassName {
 fn is(c: &Option<ClassName>, x: u8) -> bool { matches!(c, Some(n) if n.as_inner().as_bytes().len() == 1 && n.as_inner().as_bytes()[0] == x) }
 fn is_str(c: &Option<JavaString>, x: u8) -> bool { matches!(c, Some(n) if n.as_bytes().len() == 1 && n.as_bytes()[0] == x) }
 
+//# {"id":"c01_tree_member_slots","props":["C01"],"tier":"quick","cap":1200,"bound":"ClassFile as ClassVisitor, Method as MethodVisitor: two methods (symbolic one-byte names, symbolic access words) and one field visited in the order method, field, method; the first method receives Exceptions (one symbolic class), Deprecated/Synthetic flags and a Code: members end up in their own list in visit order with the visited access / name / descriptor, and the method-level facts stay with the method they were visited on; unwind 6","fns":["<impl ClassVisitor for ClassFile>::{visit_method,finish_method,visit_field,finish_field}","<impl MethodVisitor for Method>::{visit_exceptions,visit_deprecated_and_synthetic_attribute,visit_code,finish_code}"]}
 //# {"id":"c01_tree_code_slots","props":["C01"],"tier":"quick","cap":1200,"bound":"Code as CodeVisitor: max_stack / max_locals (all u16 pairs), two instructions with symbolic labels (BiPush with a symbolic operand, then Return), last label (symbolic id; a second one refused), a one-entry line-number table (symbolic label and line): every fact in its own slot, instruction order and label attachment preserved; unwind 6","fns":["duke::visitor::implementations::tree::<impl CodeVisitor for Code>::{visit_max_stack_and_max_locals,visit_instruction,visit_last_label,visit_line_numbers}"]}
 //# {"id":"c01_tree_class_slots","props":["C01"],"tier":"quick","cap":1200,"bound":"ClassFile as ClassVisitor: one visit call out of {nest host, module main class, source file, source debug extension, deprecated/synthetic} (constant per arm) with a symbolic one-byte value / symbolic flags, then the same call again: the value lands in exactly its own slot, no other single-slot fact changes, the second visit is refused and changes nothing; unwind 6","fns":["duke::visitor::implementations::tree::<impl ClassVisitor for ClassFile>::{visit_nest_host_class,visit_module_main_class,visit_source_file,visit_source_debug_extension,visit_deprecated_and_synthetic_attribute}","duke::OptionExpansion::insert_if_empty"]}
 proofs! {
+	#[cfg_attr(kani, kani::unwind(6))]
+	fn c01_tree_member_slots() {
+		use core::ops::ControlFlow;
+		use duke::tree::field::{FieldAccess, FieldDescriptor, FieldName};
+		use duke::tree::method::{MethodAccess, MethodDescriptor, MethodName};
+		use duke::visitor::method::MethodVisitor;
+		let (n1, n2, nf, ex) = (sym::u8(), sym::u8(), sym::u8(), sym::u8());
+		let ok = |b: u8| b >= 1 && b < 0x80 && !matches!(b, b'.' | b';' | b'[' | b'/' | b'<' | b'>');
+		sym::assume(ok(n1) && ok(n2) && ok(nf) && ok(ex));
+		let (a1, a2, af) = (sym::u16(), sym::u16(), sym::u16());
+		let (dep, syn) = (sym::bool(), sym::bool());
+		// SAFETY: one valid byte each / constant valid descriptors.
+		let mname = |b: u8| unsafe { MethodName::from_inner_unchecked(one_byte_class(b).into_inner()) };
+		let mdesc = || unsafe { MethodDescriptor::from_inner_unchecked(JavaStr::from_str("()V").to_owned()) };
+		let c = fresh();
+		// first method, with facts of its own
+		let ControlFlow::Continue((c, mut m1)) = c.visit_method(MethodAccess::from(a1), mname(n1), mdesc()).expect("visit_method") else { panic!("the tree builder never declines a method") };
+		let mut exs = Vec::with_capacity(1); exs.push(one_byte_class(ex));
+		assert!(m1.visit_exceptions(exs).is_ok());
+		assert!(m1.visit_deprecated_and_synthetic_attribute(dep, syn).is_ok());
+		let code = m1.visit_code().expect("visit_code").expect("the tree builder wants the code");
+		assert!(m1.finish_code(code).is_ok());
+		let c = ClassFile::finish_method(c, m1).expect("finish_method");
+		// a field in between
+		let ControlFlow::Continue((c, f)) = c.visit_field(FieldAccess::from(af), unsafe { FieldName::from_inner_unchecked(one_byte_class(nf).into_inner()) }, unsafe { FieldDescriptor::from_inner_unchecked(JavaStr::from_str("I").to_owned()) }).expect("visit_field") else { panic!("the tree builder never declines a field") };
+		let c = ClassFile::finish_field(c, f).expect("finish_field");
+		// second method, bare
+		let ControlFlow::Continue((c, m2)) = c.visit_method(MethodAccess::from(a2), mname(n2), mdesc()).expect("visit_method") else { panic!("the tree builder never declines a method") };
+		let c = ClassFile::finish_method(c, m2).expect("finish_method");
+
+		assert!(c.methods.len() == 2 && c.fields.len() == 1, "every member is stored exactly once, in its own list");
+		let (g1, g2, gf) = (&c.methods[0], &c.methods[1], &c.fields[0]);
+		assert!(g1.name.as_inner().as_bytes()[0] == n1 && g2.name.as_inner().as_bytes()[0] == n2 && gf.name.as_inner().as_bytes()[0] == nf, "members keep their visit order and names");
+		assert!(g1.access == MethodAccess::from(a1) && g2.access == MethodAccess::from(a2) && gf.access == FieldAccess::from(af), "access flags stay with their member");
+		assert!(matches!(&g1.exceptions, Some(e) if e.len() == 1 && e[0].as_inner().as_bytes()[0] == ex) && g2.exceptions.is_none(), "Exceptions stay with the method they were visited on");
+		assert!(g1.has_deprecated_attribute == dep && g1.has_synthetic_attribute == syn && !g2.has_deprecated_attribute && !g2.has_synthetic_attribute, "Deprecated / Synthetic stay with their method");
+		assert!(g1.code.is_some() && g2.code.is_none(), "the Code stays with its method");
+		assert!(slots(&c) == 0 && c.attributes.is_empty(), "no class-level fact is invented");
+		witness!(n1 == n2 && a1 != a2, "two methods of the same name with different flags");
+		core::mem::forget(c);
+	}
+
 	#[cfg_attr(kani, kani::unwind(6))]
 	fn c01_tree_code_slots() {
 		use duke::tree::method::code::{Code, Instruction};
